@@ -31,6 +31,8 @@ for m in items:
     sh(f"git -C /repo worktree add --detach {wt} HEAD")
     try:
         status = None
+        if "patch_file" in m:
+            m["patch"] = f"{V}/{m['patch_file']}"
         if "patch" in m:
             r = sh(f"git -C {wt} apply {m['patch']}")
             if r.returncode != 0: status = "patch does not apply: " + r.stderr.strip()[:200]
